@@ -60,13 +60,16 @@ LATEST = {
     "C04": " Latest: ordered covering in two stages, the second one given "
            "the first one's table and aliases.",
     "C05": " Latest: null reservations slice(a, a).",
+    "C06": " Latest: callbacks that are callable collections, still empty "
+           "(false) when their reply arrives.",
     "C07": " Latest: blocks at the two ends of the 32-bit address space.",
     "C08": " Latest: a refused assign_fields() is repeated once; a layout "
            "the repetition reports is verified like any other.",
     "C09": " Latest: one file under two spellings in a map; binaries of 254 "
            "and 255 blocks.",
     "C10": " Latest: keys with bits outside their mask; hops that are "
-           "instances of a RoutingTree subclass.",
+           "instances of a RoutingTree subclass; the loaded list edited in "
+           "place and loaded again through the same controller.",
     "C12": " Latest: neighbouring chips with overlapping core sets (more "
            "region words than chips); targets in a defaultdict(set), which "
            "must come back unchanged.",
@@ -85,7 +88,7 @@ LATEST = {
     "C19": " Latest: root chips given by position, by keyword, mixed, or "
            "left out.",
     "C20": " Latest: struct files of the caller's own, with and without an "
-           "own image.",
+           "own image; boot() called with every parameter by position.",
 }
 
 
